@@ -205,6 +205,28 @@ int ops_trav(int n, char **a) {
         free(out);
         return 1;
     }
+    if (isop(op, "pathcheck") && n == 3) {
+        // the C14 statement evaluated in-process on one (possibly very long) path:
+        // "ok <size> <index of the first step that is not a neighbour step, or -1> <first==a> <last==b> <all valid>"
+        H3Index A = pH(a[1]), B = pH(a[2]);
+        int64_t sz = 0; H3Error e = H3_EXPORT(gridPathCellsSize)(A, B, &sz);
+        if (e) { outErr(e); return 1; }
+        if (sz > 3000000) { printf("skip-too-large\n"); return 1; }
+        H3Index *out = xbuf((size_t)sz, sizeof(H3Index));
+        e = H3_EXPORT(gridPathCells)(A, B, out);
+        if (e) { outErr(e); free(out); return 1; }
+        int64_t bad = -1; int valid = 1;
+        for (int64_t i = 0; i < sz; i++) {
+            if (!H3_EXPORT(isValidCell)(out[i])) valid = 0;
+            if (i + 1 < sz && bad < 0) {
+                int nb = 0;
+                if (H3_EXPORT(areNeighborCells)(out[i], out[i + 1], &nb) || !nb) bad = i;
+            }
+        }
+        printf("ok %" PRId64 " %" PRId64 " %d %d %d\n", sz, bad, out[0] == A, out[sz - 1] == B, valid);
+        free(out);
+        return 1;
+    }
     if (isop(op, "h2fijk") && n == 2) {
         FaceIJK f; H3Error e = _h3ToFaceIjk(pH(a[1]), &f);
         if (e) outErr(e); else printf("ok %d %d %d %d\n", f.face, f.coord.i, f.coord.j, f.coord.k);
